@@ -186,7 +186,7 @@ def drv(lines, timeout=1800):
 
 def harness(binary, stream, timeout=3600, **kw):
     args = [binary, stream] + ["%s=%s" % (k, v) for k, v in kw.items()]
-    p = subprocess.run(args, capture_output=True, text=True, timeout=timeout, cwd=REPO, env=GOENV)
+    p = subprocess.run(args, capture_output=True, text=True, errors="replace", timeout=timeout, cwd=REPO, env=GOENV)
     if p.returncode != 0:
         raise RuntimeError("harness %s failed rc=%s: %s ... %s" % (stream, p.returncode, p.stderr[:1500], p.stderr[-2500:]))
     rows = []
